@@ -73,7 +73,7 @@ func lockCoverage(src *hx.Src, recv string) (locked, unlocked []string, err erro
 
 func extract(a hx.ExtractArgs) error {
 	lf := hx.NewLeanFile("Gms.Generated.C36", "processlist.go", "engine.go", "sql/core.go", "sql/memory.go", "sql/analyzer/catalog.go",
-		"sql/variables/status_variables.go", "server/handler.go", "sql/information_schema/information_schema.go", "sql/planbuilder/from.go")
+		"sql/variables/status_variables.go", "server/handler.go", "sql/information_schema/information_schema.go", "sql/planbuilder/from.go", "memory/table.go")
 
 	// 1. the shared registries and their locks
 	for _, x := range []struct{ file, recv, name string }{
@@ -333,5 +333,10 @@ func extract(a hx.ExtractArgs) error {
 		return true
 	})
 	lf.DefBool("buildResolvedTableAssignsCatalog", assigns)
+
+	// 8. the storage all sessions share and the process-list snapshots (facts2.go)
+	if err := extractStore(a, lf); err != nil {
+		return err
+	}
 	return lf.Write(a.Out)
 }
